@@ -131,6 +131,7 @@ def win(lines, w, i):
     return (hash("\n".join(lines[i:i + w])), i + 1, i + w, "\n".join(lines[i:i + w]))
 
 
+@opaque
 def windows_from(lines: SeqOf(Str), w: Int, i: Int) -> SeqOf(WinT):
     """All windows starting at index >= i, in order (one per index that still has w lines)."""
     if i < 0 or i + w > len(lines):
@@ -146,11 +147,16 @@ class RollingHash:
     def requires(lines, window_size):
         return window_size >= 1
 
+    def reveals(lines, window_size):
+        return reveal(windows_from, lines, window_size, 0)
+
     def value(lines, window_size):
         return windows_from(lines, window_size, 0)
 
     def inv0(lines, window_size, hashes, i):
-        return windows_from(lines, window_size, 0) == hashes + windows_from(lines, window_size, i)
+        # `i` is the index of the next window; one unfolding of the (opaque) spec at i is all a step needs
+        return reveal(windows_from, lines, window_size, i) and \
+            windows_from(lines, window_size, 0) == hashes + windows_from(lines, window_size, i)
 
 
 @lemma(props=["C03"], types=dict(k=Int, lines=SeqOf(Str), w=Int, j=Int), name="windows-from-indexing")
@@ -160,6 +166,7 @@ def windows_indexing(k, lines, w, j):
     i = len(lines) - w + 1 - k
     if w < 1 or k < 0 or i < 0:
         return True
+    reveal(windows_from, lines, w, i)
     if k == 0:
         return len(windows_from(lines, w, i)) == 0
     ih(windows_indexing, k - 1, lines, w, j - 1)
